@@ -3,7 +3,9 @@
 
 pub mod common;
 pub mod drivers;
+pub mod known;
 pub mod plan;
+pub mod typematrix;
 pub mod worlds;
 
 #[global_allocator]
